@@ -174,6 +174,16 @@ def run_quantile(case):
                     base = cur
                     if dt == dtypes[0]:
                         table.extend(cur)
+                    if dt[0] == 'f':
+                        # the same sample at a very small / very large scale (binary-exact): the quantile is the same element
+                        for xs in (2.0 ** -30, 2.0 ** 30):
+                            for ai, af in enumerate(afloat):
+                                good, q = _try(wq, xa * xs, af, weights=wa)
+                                evals += 1
+                                if not good or float(q) != cur[ai] * xs:
+                                    return _viol('C13:quantile:not-scale-equivariant',
+                                                 {'xscale': xs, 'got': repr(q), 'expected': cur[ai] * xs}, wit([ai]),
+                                                 evals, evals)
     r = ok(outcome=digest((x, table)), trivial=False, quantile_calls=evals, quantile_alpha_on_boundary=boundary,
            quantile_upper_neighbour_at_boundary=upper_at_boundary,
            quantile_scale_comparisons_skipped_inexact_boundary=inexact_skipped,
@@ -311,6 +321,22 @@ def run_wvar(case):
                                 return _viol('C13:weighted_var:wrong-far-from-origin',
                                              {'offset': off, 'got': vo.tolist(), 'exact_float': [float(t) for t in exact]},
                                              dict(wit, offsets=[off]), evals, evals)
+                # the same sample at a very small / very large scale (binary-exact factors): the variance scales with
+                # the square of the factor; an absolute tolerance anywhere in the computation breaks this
+                if dt == 'ff':
+                    for xs in (2.0 ** -30, 2.0 ** 30):
+                        with np.errstate(all='ignore'):
+                            good3, v3 = _try(wvar, xa * xs, wa)
+                        evals += 1
+                        if not good3:
+                            return _viol(v3[0].replace('C13:exception', 'C13:weighted_var:exception'), {'error': v3[1]},
+                                         dict(wit, xscale=xs), evals, evals)
+                        vs_ = np.asarray(v3, dtype=float).reshape(-1)
+                        if not all(_close(g, e * Fraction(xs) ** 2) for g, e in zip(vs_, exact)):
+                            return _viol('C13:weighted_var:not-scale-equivariant',
+                                         {'xscale': xs, 'got': vs_.tolist(),
+                                          'exact_float': [float(e * Fraction(xs) ** 2) for e in exact]},
+                                         dict(wit, xscale=xs), evals, evals)
                 # second, numpy-based reading of the same definition (unscaled weights only)
                 wn = np.ones(n) if wa is None else np.asarray(wa, dtype=float)
                 with np.errstate(all='ignore'):
